@@ -1,104 +1,199 @@
 --------------------------- MODULE ValidateSeries ---------------------------
 (***************************************************************************)
-(* State machine of SeriesSchema.validate / ArraySchemaBackend.validate     *)
-(* (pandera/backends/pandas/array.py): one action per stage of the code,    *)
-(* the ErrorHandler's raise-or-collect switch, and the copy-or-alias         *)
-(* relation between the caller's object and the working object.             *)
+(* SeriesSchema.validate (api/pandas/array.py) on top of                     *)
+(* ArraySchemaBackend.validate (backends/pandas/array.py) and, when the       *)
+(* schema has an index, IndexBackend.validate (backends/pandas/components.py).*)
+(*                                                                           *)
+(* The run is a record `st`; every stage of the code is an operator           *)
+(* st -> st (Preprocess, SetDefault, CoerceDtype, CheckName, ...), so that    *)
+(*   - the state machine takes one stage per step (one named action each),    *)
+(*   - a whole run is the function Run(st) = iterate Step until "done",       *)
+(*     which hyper-properties use to compare two runs (lazy vs eager, ideal   *)
+(*     vs shipped code, first vs second validation).                          *)
+(*                                                                           *)
+(* st = [S        the schema: field schema + [coerce, default, drop, index]   *)
+(*       inp0     the caller's object at call time                            *)
+(*       lazy, inplace                                                        *)
+(*       dev      deviations of the shipped code that are switched on         *)
+(*       inp      the caller's object as it is now                            *)
+(*       obj      the working object                                          *)
+(*       aliased  obj and inp are the same object                             *)
+(*       errs     ErrorHandler: collected errors                              *)
+(*       raised   an eager error has been raised                              *)
+(*       pc, ci   control state, next check index                             *)
+(*       out]     outcome of the call                                         *)
 (***************************************************************************)
-EXTENDS Field
-
-CONSTANTS Schemas,       \* set of field schemas explored
-          Fields,        \* set of fields (Series) explored
-          Modes          \* subset of BOOLEAN: values of lazy
-VARIABLES S, inp0, lazy, inplace,   \* the call
-          inp,           \* the caller's object as it is now
-          obj,           \* the working object
-          aliased,       \* obj and inp are the same object
-          errs,          \* ErrorHandler: collected errors
-          raised,        \* an eager error has been raised
-          pc, ci,        \* control state, next check index
-          out            \* outcome of the call
-vars == <<S, inp0, lazy, inplace, inp, obj, aliased, errs, raised, pc, ci, out>>
+EXTENDS Parse
 
 NoOut == [kind |-> "none"]
+NoIndexS == [none |-> TRUE]
+HasIndexS(schema) == "dtype" \in DOMAIN schema.index
 
-Init == /\ S \in Schemas
-        /\ inp0 \in Fields
-        /\ lazy \in Modes
-        /\ inplace = FALSE
-        /\ inp = inp0 /\ obj = inp0 /\ aliased = TRUE
-        /\ errs = <<>> /\ raised = FALSE
-        /\ pc = "preprocess" /\ ci = 1 /\ out = NoOut
+Start(schema, field, lz, ip, dv) ==
+  [S |-> schema, inp0 |-> field, lazy |-> lz, inplace |-> ip, dev |-> dv,
+   inp |-> field, obj |-> field, aliased |-> TRUE,
+   errs |-> <<>>, raised |-> FALSE, pc |-> "preprocess", ci |-> 1, out |-> NoOut]
 
 (* ErrorHandler.collect_error: raise at once when eager, append when lazy *)
-Collect(new) ==
-  IF new = <<>> \/ raised THEN UNCHANGED <<errs, raised>>
-  ELSE IF lazy THEN errs' = errs \o new /\ UNCHANGED raised
-       ELSE errs' = <<new[1]>> /\ raised' = TRUE
+Collect(st, new) ==
+  IF new = <<>> \/ st.raised THEN st
+  ELSE IF st.lazy THEN [st EXCEPT !.errs = @ \o new]
+       ELSE [st EXCEPT !.errs = <<new[1]>>, !.raised = TRUE]
 
-Call == <<S, inp0, lazy, inplace>>
+(* every in-place stage goes through Write: it reaches the caller's object *)
+(* exactly when the working object is the caller's object                   *)
+Write(st, new) == [st EXCEPT !.obj = new, !.inp = IF st.aliased THEN new ELSE @]
+Goto(st, next) == [st EXCEPT !.pc = next]
 
-Preprocess ==                      \* check_obj if inplace else check_obj.copy()
-  /\ pc = "preprocess"
-  /\ aliased' = inplace /\ obj' = inp
-  /\ pc' = "name"
-  /\ UNCHANGED <<Call, inp, errs, raised, ci, out>>
+(* failure cases carry the index label of the row (positions -> labels) *)
+L(st, es) == Labelled(es, st.obj.idx)
 
-Stage(here, next, new) ==          \* a core check: skipped once an eager error was raised
-  /\ pc = here
-  /\ IF raised THEN UNCHANGED <<errs, raised>> ELSE Collect(new)
-  /\ pc' = next
-  /\ UNCHANGED <<Call, inp, obj, aliased, ci, out>>
+Preprocess(st) ==                  \* check_obj if inplace else check_obj.copy()
+  Goto([st EXCEPT !.aliased = st.inplace, !.obj = st.inp], "default")
 
-CheckName     == Stage("name", "nullable", CoreName(S, obj))
-CheckNullable == Stage("nullable", "unique", CoreNullable(S, obj))
-CheckUnique   == Stage("unique", "dtype", CoreUnique(S, obj))
-CheckDtype    == Stage("dtype", "checks", CoreDtype(S, obj))
+SetDefault(st) ==                  \* check_obj = check_obj.fillna(default): a new object
+  Goto(IF IsNull(st.S.default) THEN st
+       ELSE [st EXCEPT !.obj = FillDefault(st.S.default, @), !.aliased = FALSE], "coerce")
 
-RunCheck ==                        \* one user check per step
-  /\ pc = "checks" /\ ci <= Len(S.checks)
-  /\ IF raised THEN UNCHANGED <<errs, raised>> ELSE Collect(CoreCheck(S, obj, ci))
-  /\ ci' = ci + 1
-  /\ UNCHANGED <<Call, inp, obj, aliased, pc, out>>
+CoerceDtype(st) ==                 \* check_obj = try_coerce(check_obj): a new object, or an error
+  Goto(IF st.S.coerce /\ st.S.dtype # "none" /\ ~st.raised
+       THEN LET es == L(st, CoerceErrors(st.S.dtype, st.obj))
+            IN Collect([st EXCEPT !.obj = CoerceField(st.S.dtype, @),
+                                  !.aliased = IF es = <<>> THEN FALSE ELSE @], es)
+       ELSE st, "name")
 
-Finish ==
-  /\ pc = "checks" /\ ci > Len(S.checks)
-  /\ pc' = "done"
-  /\ out' = IF errs = <<>> THEN [kind |-> "ok", returned |-> obj]
-            ELSE [kind |-> IF lazy THEN "SchemaErrors" ELSE "SchemaError",
-                  errors |-> Labelled(errs, obj.idx)]
-  /\ UNCHANGED <<Call, inp, obj, aliased, errs, raised, ci>>
+CheckName(st)     == Goto(Collect(st, L(st, CoreName(st.S, st.obj))), "nullable")
+CheckNullable(st) == Goto(Collect(st, L(st, CoreNullable(st.S, st.obj))), "unique")
+CheckUnique(st)   == Goto(Collect(st, L(st, CoreUnique(st.S, st.obj))), "dtype")
+CheckDtype(st)    == Goto(Collect(st, L(st, CoreDtype(st.S, st.obj))), "checks")
 
-Next == Preprocess \/ CheckName \/ CheckNullable \/ CheckUnique \/ CheckDtype
-          \/ RunCheck \/ Finish
-Spec == Init /\ [][Next]_vars
+RunCheck(st) ==                    \* one user check per step
+  [Collect(st, L(st, CoreCheck(st.S, st.obj, st.ci))) EXCEPT !.ci = st.ci + 1]
+
+Raise(st) == [kind |-> IF st.lazy THEN "SchemaErrors" ELSE "SchemaError", errors |-> st.errs]
+
+ValuesDone(st) ==                  \* end of ArraySchemaBackend.validate
+  IF st.errs # <<>> THEN [Goto(st, "done") EXCEPT !.out = Raise(st)]
+  ELSE IF HasIndexS(st.S) THEN Goto(st, "index_coerce")
+       ELSE [Goto(st, "done") EXCEPT !.out = [kind |-> "ok", returned |-> st.obj]]
+
+(* index.validate(X): the shipped code passes the ORIGINAL check_obj            *)
+(* (deviation SeriesIndexValidatesOriginal), the intended design the validated  *)
+(* object.  IndexBackend.validate assigns X.index in place and returns X.       *)
+IdxField(f) == [name |-> f.idxname, pd |-> f.idxpd, cells |-> f.idx, idx |-> f.idx]
+
+IndexCoerce(st) ==
+  LET onOriginal == "SeriesIndexValidatesOriginal" \in st.dev
+      x    == IF onOriginal THEN st.inp ELSE st.obj
+      r    == CoerceCells(st.S.index.dtype, x.idx)
+      newx == IF st.S.index.coerce /\ st.S.index.dtype # "none" /\ r.ok
+              THEN [x EXCEPT !.idx = r.cells, !.idxpd = Phys(st.S.index.dtype)] ELSE x
+      es   == IF st.S.index.coerce THEN Labelled(CoerceErrors(st.S.index.dtype, IdxField(x)), x.idx) ELSE <<>>
+      st1  == IF onOriginal
+              THEN [st EXCEPT !.inp = newx, !.obj = newx, !.aliased = TRUE]   \* the caller's object is written and returned
+              ELSE Write(st, newx)
+  IN Goto(Collect(st1, es), "index_check")
+
+(* Ideal: index failure cases carry the row label.  Deviation                     *)
+(* IndexFailureCasesByPosition: they carry the row position (the index is checked  *)
+(* as index.to_series().reset_index(drop=True)).                                   *)
+IndexCheck(st) ==
+  LET labels == IF "IndexFailureCasesByPosition" \in st.dev
+                THEN [ i \in 1..Len(st.obj.idx) |-> iv(i - 1) ] ELSE st.obj.idx
+      (* deviation IndexCoercionReportedTwice: the index values are validated by the array back end with  *)
+      (* coerce still on, so a failed index coercion is collected a second time (by position)             *)
+      again == IF "IndexCoercionReportedTwice" \in st.dev /\ st.S.index.coerce
+               THEN Labelled(CoerceErrors(st.S.index.dtype, IdxField(st.obj)), [ i \in 1..Len(st.obj.idx) |-> iv(i - 1) ])
+               ELSE <<>>
+  IN Goto(Collect(st, again \o Labelled(FieldErrors(st.S.index, IdxField(st.obj)), labels)), "index_done")
+
+IndexDone(st) ==
+  [Goto(st, "done") EXCEPT !.out = IF st.errs = <<>> THEN [kind |-> "ok", returned |-> st.obj] ELSE Raise(st)]
+
+Step(st) ==
+  CASE st.pc = "preprocess"   -> Preprocess(st)
+    [] st.pc = "default"      -> SetDefault(st)
+    [] st.pc = "coerce"       -> CoerceDtype(st)
+    [] st.pc = "name"         -> CheckName(st)
+    [] st.pc = "nullable"     -> CheckNullable(st)
+    [] st.pc = "unique"       -> CheckUnique(st)
+    [] st.pc = "dtype"        -> CheckDtype(st)
+    [] st.pc = "checks"       -> IF st.ci <= Len(st.S.checks) THEN RunCheck(st) ELSE ValuesDone(st)
+    [] st.pc = "index_coerce" -> IndexCoerce(st)
+    [] st.pc = "index_check"  -> IndexCheck(st)
+    [] st.pc = "index_done"   -> IndexDone(st)
+
+RECURSIVE Run(_)
+Run(st) == IF st.pc = "done" THEN st ELSE Run(Step(st))
 
 ---------------------------------------------------------------------------
-(* Properties *)
-Done == pc = "done"
+(* The state machine: one named action per stage *)
+VARIABLE st
+At(p) == st.pc = p
+APreprocess    == At("preprocess")   /\ st' = Preprocess(st)
+ASetDefault    == At("default")      /\ st' = SetDefault(st)
+ACoerceDtype   == At("coerce")       /\ st' = CoerceDtype(st)
+ACheckName     == At("name")         /\ st' = CheckName(st)
+ACheckNullable == At("nullable")     /\ st' = CheckNullable(st)
+ACheckUnique   == At("unique")       /\ st' = CheckUnique(st)
+ACheckDtype    == At("dtype")        /\ st' = CheckDtype(st)
+ARunCheck      == At("checks") /\ st.ci <= Len(st.S.checks) /\ st' = RunCheck(st)
+AValuesDone    == At("checks") /\ st.ci > Len(st.S.checks)  /\ st' = ValuesDone(st)
+AIndexCoerce   == At("index_coerce") /\ st' = IndexCoerce(st)
+AIndexCheck    == At("index_check")  /\ st' = IndexCheck(st)
+AIndexDone     == At("index_done")   /\ st' = IndexDone(st)
+Next == APreprocess \/ ASetDefault \/ ACoerceDtype \/ ACheckName \/ ACheckNullable \/ ACheckUnique
+          \/ ACheckDtype \/ ARunCheck \/ AValuesDone \/ AIndexCoerce \/ AIndexCheck \/ AIndexDone
+
+---------------------------------------------------------------------------
+(* Properties (asserted for the ideal design, st.dev = {}) *)
+Done == st.pc = "done"
+Ideal == st.dev = {}
+NoParsing(schema) == ~schema.coerce /\ IsNull(schema.default) /\ ~schema.drop
+                     /\ (HasIndexS(schema) => ~schema.index.coerce)
+(* the schema with every parsing option switched off *)
+Strip(schema) == [schema EXCEPT !.coerce = FALSE, !.default = NA, !.drop = FALSE,
+                                !.index = IF HasIndexS(schema) THEN [@ EXCEPT !.coerce = FALSE] ELSE @]
+SeriesSat(schema, f) ==
+  /\ FieldSat(schema, f)
+  /\ HasIndexS(schema) => FieldSat(schema.index, IdxField(f))
 
 (* C01: the verdict is the declared meaning; identity on success *)
-VerdictEqualsSemantics == Done => ((out.kind = "ok") <=> FieldSat(S, inp0))
-IdentityOnSuccess == Done /\ out.kind = "ok" => out.returned = inp0
+VerdictEqualsSemantics ==
+  Done /\ Ideal /\ NoParsing(st.S) => ((st.out.kind = "ok") <=> SeriesSat(st.S, st.inp0))
+IdentityOnSuccess == Done /\ Ideal /\ st.out.kind = "ok" /\ NoParsing(st.S) => st.out.returned = st.inp0
 
 (* C02: lazy collects every error, eager raises the first of them *)
-AllErrors == Labelled(FieldErrors(S, inp0), inp0.idx)
+AllErrors(s) == Labelled(FieldErrors(s.S, s.inp0), s.inp0.idx)
 ReportExact ==
-  Done /\ out.kind # "ok" =>
-     IF lazy THEN out.errors = AllErrors ELSE out.errors = <<AllErrors[1]>>
-(* every reported cell really violates its constraint, and every violating *)
-(* cell is reported (n_failure_cases = None)                                *)
+  Done /\ Ideal /\ st.out.kind # "ok" /\ NoParsing(st.S) /\ ~HasIndexS(st.S) =>
+     IF st.lazy THEN st.out.errors = AllErrors(st) ELSE st.out.errors = <<AllErrors(st)[1]>>
+LazyEagerAgree ==
+  Done /\ Ideal =>
+     LET other == Run(Start(st.S, st.inp0, ~st.lazy, st.inplace, st.dev))
+         lz == IF st.lazy THEN st ELSE other
+         eg == IF st.lazy THEN other ELSE st
+     IN /\ (lz.out.kind = "ok") <=> (eg.out.kind = "ok")
+        /\ eg.out.kind # "ok" => \E e \in 1..Len(lz.out.errors) : lz.out.errors[e] = eg.out.errors[1]
 CasesAreViolations ==
-  Done /\ out.kind = "SchemaErrors" =>
-    \A e \in 1..Len(out.errors) :
-       LET er == out.errors[e] IN
-       er.reason = "DATAFRAME_CHECK" /\ ~er.scalar /\ S.checks[er.ci + 1].nfc = 0 =>
-          LET c == S.checks[er.ci + 1] IN
+  Done /\ Ideal /\ st.out.kind = "SchemaErrors" /\ NoParsing(st.S) /\ ~HasIndexS(st.S) =>
+    \A e \in 1..Len(st.out.errors) :
+       LET er == st.out.errors[e] IN
+       er.reason = "DATAFRAME_CHECK" /\ ~er.scalar /\ st.S.checks[er.ci + 1].nfc = 0 =>
+          LET c == st.S.checks[er.ci + 1] IN
           /\ \A j \in 1..Len(er.cases) : ~CellOK(c, er.cases[j][2])
-          /\ \A i \in 1..Len(inp0.cells) :
-                (~CellOK(c, inp0.cells[i]) /\ ~(c.ina /\ IsNull(inp0.cells[i])))
-                   => \E j \in 1..Len(er.cases) : er.cases[j] = <<inp0.idx[i], inp0.cells[i]>>
+          /\ \A i \in 1..Len(st.inp0.cells) :
+                (~CellOK(c, st.inp0.cells[i]) /\ ~(c.ina /\ IsNull(st.inp0.cells[i])))
+                   => \E j \in 1..Len(er.cases) : er.cases[j] = <<st.inp0.idx[i], st.inp0.cells[i]>>
+
+(* C03: whatever is returned conforms to the schema with parsing switched off, *)
+(* and validating it again returns it unchanged                                *)
+ParsePostcondition == Done /\ Ideal /\ st.out.kind = "ok" => SeriesSat(Strip(st.S), st.out.returned)
+ParseFixpoint ==
+  Done /\ Ideal /\ st.out.kind = "ok" =>
+     LET again == Run(Start(st.S, st.out.returned, st.lazy, FALSE, st.dev))
+     IN again.out.kind = "ok" /\ again.out.returned = st.out.returned
 
 (* C04: the caller's object is never written without inplace *)
-NoCallerMutation == ~inplace => inp = inp0
+NoCallerMutation == Ideal /\ ~st.inplace => st.inp = st.inp0
 =============================================================================
